@@ -155,6 +155,24 @@ fn render_all(r: &Result<QueryReply, QueryError>) {
     };
 }
 
+fn hex_opt(o: &Option<String>) -> String { match o { Some(s) => hex(s), None => "-".into() } }
+
+/// every field of a `NumberParts`, for C06
+pub fn fmt_parts(kind: &str, p: &NumberParts) -> String {
+    format!("parts {} raw={} exact={} approx={} factor={} div={} unit={} rawunit={} quantity={} dims={} rawdims={}",
+        kind, fmt_opt_number(&p.raw_value), hex_opt(&p.exact_value), hex_opt(&p.approx_value), hex_opt(&p.factor), hex_opt(&p.divfactor),
+        hex_opt(&p.unit), p.raw_unit.as_ref().map(fmt_dim).unwrap_or_else(|| "none".into()), hex_opt(&p.quantity), hex_opt(&p.dimensions),
+        p.raw_dimensions.as_ref().map(fmt_dim).unwrap_or_else(|| "none".into()))
+}
+
+pub fn canon_parts(q: &Query, r: &Result<QueryReply, QueryError>) -> String {
+    match r {
+        Ok(QueryReply::Number(p)) => fmt_parts("number", p),
+        Ok(QueryReply::Conversion(c)) => fmt_parts("conv", &c.value),
+        _ => canon(q, r),
+    }
+}
+
 /// Worker loop: reads request lines from stdin, one answer line per request on stdout.
 pub fn worker() -> i32 {
     std::panic::set_hook(Box::new(|_| {}));
@@ -172,6 +190,15 @@ pub fn worker() -> i32 {
                     let (q, r) = eval_pinned(&mut ctx, &text);
                     render_all(&r);
                     canon(&q, &r)
+                }));
+                match res { Ok(s) => s, Err(_) => "panic".to_string() }
+            }
+            ["evalp", input, ..] => {
+                let text = unhex(input);
+                let res = std::panic::catch_unwind(std::panic::AssertUnwindSafe(|| {
+                    let (q, r) = eval_pinned(&mut ctx, &text);
+                    render_all(&r);
+                    canon_parts(&q, &r)
                 }));
                 match res { Ok(s) => s, Err(_) => "panic".to_string() }
             }
